@@ -83,6 +83,39 @@ def rule_nodes_and_edges(ctx: Ctx, out: Collector) -> None:
     else:
         out.bad('VW-1', cons, p.loc(gen_nodes, gen_nodes.node), 'node entries do not distinguish synthetic (virtual, typed by id prefix) from '
                                                                 'real nodes (declared name, type, documentation)')
+    # real nodes are described by the attributes of the DAG's own node object
+    node_var = None
+    for n_ in ast.walk(gen_nodes.node):
+        if isinstance(n_, ast.Assign) and isinstance(n_.targets[0], ast.Name) and isinstance(n_.value, ast.Call) \
+                and ('_get_node' in unparse(n_.value.func) or 'node_map' in unparse(n_.value.func)):
+            node_var = n_.targets[0].id
+    cons = f'{gen_nodes.module.name}::{gen_nodes.qualname}::real node entries carry the attributes of the DAG node itself'
+    if node_var is None:
+        raise AnalysisError('the node object of the DAG is not looked up in the node generator (VW-1 anchor vanished)')
+    problems = []
+    found_attrs = False
+    for c in ast.walk(gen_nodes.node):
+        if isinstance(c, ast.Call) and unparse(c.func).endswith('NodeAttributes'):
+            found_attrs = True
+            kws = {k.arg: k.value for k in c.keywords}
+            for fld in ('name', 'verbose_name'):
+                v = kws.get(fld)
+                if not (isinstance(v, ast.Attribute) and v.attr == fld and isinstance(v.value, ast.Name) and v.value.id == node_var):
+                    problems.append(f'{fld}={unparse(v) if v is not None else None}')
+        if isinstance(c, ast.Call) and unparse(c.func).endswith('schema.Node'):
+            kws = {k.arg: k.value for k in c.keywords}
+            if 'data' in kws:
+                v = kws.get('type')
+                if not (isinstance(v, ast.Attribute) and v.attr == 'node_type' and isinstance(v.value, ast.Name) and v.value.id == node_var):
+                    problems.append(f'type={unparse(v) if v is not None else None}')
+    if not found_attrs:
+        problems.append('no NodeAttributes entry')
+    if not problems:
+        out.ok('VW-1', cons, p.loc(gen_nodes, gen_nodes.node), f'name, verbose_name, type read from {node_var} = self._get_node(node_id)')
+    else:
+        out.bad('VW-1', cons, p.loc(gen_nodes, gen_nodes.node), f'a real node is not described by its own declared attributes '
+                                                                f'({", ".join(problems)} instead of {node_var}.<attr>): nodes built from a '
+                                                                f'generic class with their own name are shown with the template\'s name')
     # ---- VW-2
     cons = f'{gen_edges.module.name}::{gen_edges.qualname}::one entry per edge of graph.edges, unfiltered'
     comps = [n for n in ast.walk(gen_edges.node) if isinstance(n, (ast.ListComp, ast.GeneratorExp))]
